@@ -65,7 +65,7 @@ def generate(cases, mode="singles", maxdev=1, simulate=None, shards=8, limit_per
         res = core.run_tlc_sharded("LayoutGen.tla", "LayoutSingles.cfg", strip, shards=shards, workers=2, prefix="layout")
     elif simulate:
         res = core.run_tlc_sharded("LayoutGen.tla", "LayoutGen.cfg", strip, shards=shards, workers=1, prefix="layoutsim",
-                                   env={"MAXDEV": str(maxdev)}, extra=("-simulate", "num=%d" % simulate, "-depth", "400"))
+                                   env={"MAXDEV": str(maxdev)}, extra=("-simulate", "num=%d" % simulate, "-depth", "400", "-seed", str(core.seed())))       # reproducible behaviours
     else:
         res = core.run_tlc_sharded("LayoutGen.tla", "LayoutGen.cfg", strip, shards=shards, workers=2, prefix="layoutgen", env={"MAXDEV": str(maxdev)})
     out = {}
